@@ -314,3 +314,48 @@ func Harness_C03_gates() {
 	// the challenge was not consumed by the refused attempt's credential check
 	verif_Assert("C03.gate.no_index", w.sm.GetControlConnectionByClientID(1001) == nil)
 }
+
+// A client record without a stored secret (created before the server had a master key, or not
+// migrated yet) can never be authenticated by challenge-response: not with the keyed response
+// of the empty secret, not with a prefix of it, not with arbitrary bytes - on its own challenge
+// (none is issued for it) or on a challenge issued for somebody else on the same connection.
+func Harness_C03_keyless_client() {
+	verif_ClockSet(int64(1) << 60)
+	ctx, stop := context.WithCancel(context.Background())
+	w := newC03World(ctx, stop, nil, nil)
+	defer w.close()
+	verif_UseTapeRandom()
+	w.cloud.cfgs[1005] = &models.ClientConfig{ID: 1005} // SecretKeyEncrypted == ""
+	c := w.conns[0]
+	// phase 1 for the keyless client itself: no challenge
+	if verif_Bool() {
+		resp, _ := w.send(c, &packet.HandshakeRequest{ClientID: 1005, ConnectionType: "control"})
+		verif_Assert("C03.keyless.no_challenge", resp == nil || (!resp.Success && !resp.NeedResponse))
+	}
+	// phase 1 for a client that has a key: the connection now holds a pending challenge
+	resp, _ := w.send(c, &packet.HandshakeRequest{ClientID: 1001, ConnectionType: "control"})
+	verif_Assert("C03.keyless.setup.challenge", resp != nil && resp.NeedResponse && resp.Challenge != "")
+	var response string
+	// (one cover point per kind of response, before the assertions: each kind's witness is replayed
+	// against the real cryptography)
+	switch verif_Choose(4) {
+	case 0: // what anybody can compute: the keyed response of the empty secret
+		response = w.mgr.ComputeResponse("", resp.Challenge)
+		verif_Cover("C03.keyless.sent.empty_key_response")
+	case 1: // the right response of the client the challenge was issued for
+		response = w.mgr.ComputeResponse("s1", resp.Challenge)
+		verif_Cover("C03.keyless.sent.other_clients_response")
+	case 2:
+		response = ""
+		verif_Cover("C03.keyless.sent.nothing")
+	default:
+		response = string(verif_Bytes(2))
+		verif_Cover("C03.keyless.sent.arbitrary")
+	}
+	resp2, err := w.send(c, &packet.HandshakeRequest{ClientID: 1005, ChallengeResponse: response, ConnectionType: "control"})
+	verif_Assert("C03.keyless.refused", err != nil && (resp2 == nil || !resp2.Success))
+	cc := w.sm.GetControlConnection(c.rw.id)
+	verif_Assert("C03.keyless.not_authenticated", cc == nil || !cc.IsAuthenticated())
+	verif_Assert("C03.keyless.no_index", w.sm.GetControlConnectionByClientID(1005) == nil)
+	verif_Cover("C03.keyless.done")
+}
